@@ -162,6 +162,18 @@ fn run(case: &Case) -> Outcome {
         purged_any |= !b.purge_old_deletes().is_empty();
     }
 
+    // A replica holds one thing per key: the view used as the model of "what the peer holds" is read through the
+    // set's own diff, so a key that is live AND tombstoned would silently enter the expectation as two facts.
+    for (set, name) in [(&a, "A"), (&b, "B")] {
+        let v = view(set);
+        ensure!(
+            v.live.keys().all(|k| !v.dead.contains_key(k)),
+            "key-live-and-tombstoned",
+            "replica {name} holds a key both live and tombstoned: {:?}",
+            v
+        );
+    }
+
     // oracle 1: exactness, both directions
     let mut both_kinds = false;
     for (me, peer, name) in [(&a, &b, "A.diff(B)"), (&b, &a, "B.diff(A)")] {
@@ -170,6 +182,13 @@ fn run(case: &Case) -> Outcome {
         let got_changes = as_map(&changes);
         let got_removals = as_map(&removals);
         ensure!(got_changes.is_some() && got_removals.is_some(), "diff-duplicate", "{name} lists a key twice: {:?} {:?}", changes, removals);
+        ensure!(
+            got_changes.as_ref().unwrap().keys().all(|k| !got_removals.as_ref().unwrap().contains_key(k)),
+            "diff-duplicate",
+            "{name} lists a key both as a modification and as a removal: {:?} {:?}",
+            changes,
+            removals
+        );
         ensure!(
             got_changes.as_ref() == Some(&exp_changes),
             "diff-modifications",
